@@ -47,7 +47,8 @@ Print Assumptions C08_cancelled_decisions.
 Theorem C08_async_cancelled : forall P cfg s a p h rest s' ls,
   step_instr P cfg s a (ITaskStart p h) rest = Some (s', ls) ->
   assoc_get (code s') a = Some (if is_cancelled s (pb_ctx (get_pub s p)) && negb (h_once (r_spec h)) then ITaskDone :: rest
-                                else call_handler P p h true (c_obs cfg) ++ rest) /\ ls = [].
+                                else call_handler P p h true (c_obs cfg) ++ rest) /\ ls = [] /\
+  (h_seq (r_spec h) = true -> at_head (queue s (r_id h)) a = true).
 Proof. exact task_start_decision. Qed.
 Print Assumptions C08_async_cancelled.
 
